@@ -462,14 +462,14 @@ func genSort(c *GenCtx) {
 			case 2:
 				key = c.jstr(r.Pick([]string{"a", "b", "é", "€", "😀", "", "ab", "B", "\uffff", "\U00010000"}))
 			default:
-				key = r.Pick([]string{"1", c.jstr("a"), "null", "2", "true"})
+				key = r.Pick([]string{"1", c.jstr("a"), "null", "2", "true", c.jstr(""), c.jstr("b"), "0", "-1", c.jstr("a"), c.jstr("")})
 			}
 			elems = append(elems, fmt.Sprintf(`{"k":%s,"i":%d}`, key, i))
 			plain = append(plain, key)
 		}
 		doc := `{"objs":[` + strings.Join(elems, ",") + `],"plain":[` + strings.Join(plain, ",") + `]}`
 		e := r.Pick([]string{"sort_by(objs, &k)[*].i", "sort_by(objs, &k)", "max_by(objs, &k)", "min_by(objs, &k)", "sort(plain)", "max(plain)", "min(plain)",
-			"sort_by(objs, &k)[*].i | [0]", "reverse(sort_by(objs, &k))[*].i", "sort_by(plain, &@)", "group_by(objs, &to_string(k))", "sort_by(objs, &to_string(k))[*].i", "[sort_by(objs, &k), objs]"})
+			"sort_by(objs, &k)[*].i | [0]", "reverse(sort_by(objs, &k))[*].i", "sort_by(plain, &@)", "max_by(plain, &@)", "min_by(plain, &@)", "min_by(objs, &k).i", "max_by(objs, &k).i", "group_by(objs, &to_string(k))", "sort_by(objs, &to_string(k))[*].i", "[sort_by(objs, &k), objs]"})
 		c.add("sort", e, doc)
 	}
 	// nested sorts: a sort inside the key expression of another sort (same and different key kinds, inner arrays
@@ -506,10 +506,10 @@ func genAlias(c *GenCtx) {
 		`{"x":[3,1,2],"y":[5,4],"o":{"b":2,"a":1},"s":["b","a","c"],"n":[3,null,1,null,2],"e":[],"m":[[2,1],[4,3]]}`,
 		`{"x":[2,1],"y":[],"o":{"z":[3,1,2]},"s":["é","a"],"n":[null,2,1],"e":[],"m":[[1],[3,2]]}`,
 		`{"x":[9,8,7,6,5,4,3,2,1,0,11,10,13,12],"y":[1],"o":{},"s":["c","b","a"],"n":[1,null],"e":[],"m":[]}`}
-	operands := []string{"x", "x[*]", "x[]", "x[:]", "x[0:]", "@.x", "$.x", "(x)", "x || y", "e || x", "x && x", "[x][0]", "{a: x}.a", "not_null(x)", "not_null(e[0], x)",
+	operands := []string{"`{\"q\": 0}`", "`{\"q\": [2, 1]}`.q", "x", "x[*]", "x[]", "x[:]", "x[0:]", "@.x", "$.x", "(x)", "x || y", "e || x", "x && x", "[x][0]", "{a: x}.a", "not_null(x)", "not_null(e[0], x)",
 		"let $v = x in $v", "`[3,1,2]`", "`[3,1,2]`[*]", "s", "s[*]", "n", "n[*]", "n[]", "m[0]", "m[]", "m[*][0]", "o.z", "values(o)", "to_array(x)", "to_array(x)[*]",
 		"x[?@ > `0`]", "map(&@, x)", "merge(o, o)", "o", "sort(x)", "reverse(x)"}
-	fns := []string{"sort(%s)", "reverse(%s)", "sort_by(%s, &@)", "max(%s)", "min(%s)", "%s[*]", "%s[]", "%s[::-1]", "%s[1:]", "map(&@, %s)", "not_null(%s)", "to_array(%s)",
+	fns := []string{"merge(%s, o)", "merge(%s, @)", "merge(o, %s)", "merge(%s, {w: x})", "sort(%s)", "reverse(%s)", "sort_by(%s, &@)", "max(%s)", "min(%s)", "%s[*]", "%s[]", "%s[::-1]", "%s[1:]", "map(&@, %s)", "not_null(%s)", "to_array(%s)",
 		"sort(%s)[0]", "merge(%s, {q: `1`})", "values(%s)", "keys(%s)", "items(%s)", "from_items(items(%s))", "group_by(%s, &to_string(@))", "zip(%s, %s)", "join(',', %s)",
 		"sum(%s)", "avg(%s)", "length(%s)", "contains(%s, `1`)", "%s | sort(@)", "%s | reverse(@)", "sort(%s[*])", "reverse(%s[*])", "sort(%s[])", "sort(sort(%s))"}
 	n := c.n(2500, 40000)
@@ -1154,6 +1154,18 @@ func genTokens(c *GenCtx) {
 			sep = ""
 		}
 		c.add("tokens-rand", strings.Join(parts, sep), doc)
+	}
+	// what may and may not follow a projection in brackets: every opener × every bracket content × a suffix
+	openers := []string{"a[*]", "a[]", "a[?a]", "b.*", "a[1:]", "a[0]", "a", "[*]", "[]", "*", "a[*].b", "b.a", "@", "a[::2]"}
+	contents := []string{"a", "'x'", "a, b", "*", " * ", "?a", "@", "`1`", "0", ":", "-1", "a.b", "&a", "", " ", "0:1", "::", "a:b", "1,2", "$", "$x", "abs(a)", "\"k\"", "?", "* ]", "[0]"}
+	for _, o := range openers {
+		for _, k := range contents {
+			for _, suf := range []string{"", ".a", "[0]", " | [0]"} {
+				c.add("tokens-bracket", o+"["+k+"]"+suf, doc)
+				c.add("tokens-bracket", o+".["+k+"]"+suf, doc)
+				c.add("tokens-bracket", o+"{"+k+"}"+suf, doc)
+			}
+		}
 	}
 }
 
